@@ -115,6 +115,9 @@ func init() {
 	checks["C03"].Runs = append(checks["C03"].Runs,
 		runSpec{Harness: pkgWitness + ".VerifFaults", Quick: p("logs", 1, "signers", 1, "maxproof", 1, "store", 0), Thorough: p("logs", 2, "signers", 2, "maxproof", 2, "store", 0), Covers: fltCovers},
 		runSpec{Harness: pkgWitness + ".VerifFaults", Quick: p("logs", 1, "signers", 1, "maxproof", 1, "store", 1), Thorough: p("logs", 2, "signers", 2, "maxproof", 2, "store", 1), Covers: fltCovers})
+	// three witness keys (key roll-over): slices of signers / verifiers with spare capacity
+	checks["C02"].Runs = append(checks["C02"].Runs, runSpec{Harness: pkgWitness + ".VerifUpdateStep", Quick: p("logs", 2, "signers", 3, "maxproof", 0, "replay", 0), Thorough: p("logs", 2, "signers", 5, "maxproof", 0, "replay", 0), Covers: []string{"upd/accept-first-use", "upd/bad-signature"}})
+	checks["C04"].Runs = append(checks["C04"].Runs, runSpec{Harness: pkgWitness + ".VerifUpdateStep", Quick: p("logs", 1, "signers", 3, "maxproof", 0, "replay", 0), Thorough: p("logs", 1, "signers", 5, "maxproof", 0, "replay", 0), Covers: []string{"upd/accept-first-use"}})
 	// C01 across a storage fault: a cosignature handed out in a step with failing storage operations
 	// binds the next step (H-FLT with C01's monitors)
 	checks["C01"].Runs = append(checks["C01"].Runs,
@@ -212,12 +215,14 @@ func init() {
 	checks["C05"].Runs = append(checks["C05"].Runs, mainRun)
 	// identity agreement between witness map, bastion handler and feeders (C12), through the
 	// repository's own AsLogMap / config.NewLog
+	// the wiring of the whole service: the real omniwitness.Main over recorders
+	checks["C12"].Runs = append(checks["C12"].Runs, runSpec{Harness: pkgOmni + ".VerifWire", Quick: p("logs", 2, "wire", 1), Thorough: p("logs", 3, "wire", 1), Covers: []string{"wire/started", "wire/configuration-refused"}})
 	// the distributor's side of identity: every PUT names the ID of the log whose checkpoint it carries
 	checks["C12"].Runs = append(checks["C12"].Runs, runSpec{Harness: pkgRest + ".VerifDistribute", Domain: sym.DomString, Solver: sym.CVC5, Quick: p("logs", 2, "io_faults", 1), Thorough: p("logs", 3, "io_faults", 1), Covers: []string{"dist/pushed", "dist/all-succeeded"}})
 	for _, id := range []string{"C02", "C12"} {
 		checks[id].Runs = append(checks[id].Runs, runSpec{Harness: pkgOmni + ".VerifConfig", Domain: sym.DomString, Solver: sym.CVC5, Quick: p("logs", 3), Thorough: p("logs", 4), Covers: []string{"cfg/refused-at-start-up", "cfg/accepted"}})
 	}
-	checks["C12"].Runs = append(checks["C12"].Runs, runSpec{Harness: pkgOmni + ".VerifBastion", Quick: p("logs", 2, "maxproof", 1, "store", 0, "replay", 0), Thorough: p("logs", 3, "maxproof", 1, "store", 0, "replay", 0), Covers: []string{"bast/200", "bast/404"}})
+	checks["C12"].Runs = append(checks["C12"].Runs, runSpec{Harness: pkgOmni + ".VerifBastion", Quick: p("logs", 2, "maxproof", 1, "store", 0), Thorough: p("logs", 3, "maxproof", 1, "store", 0), Covers: []string{"bast/200", "bast/404"}})
 	reg(&checkSpec{ID: "vc", Runs: vcRuns(), Assumptions: commonAssumptions})
 	reg(&checkSpec{ID: "litmus", Runs: []runSpec{
 		{Harness: pkgLitmus + ".Arith", Covers: []string{"L/cover-gt", "L/neg-int"}},
@@ -393,7 +398,7 @@ func cmdCheck(args []string) int {
 			anyModel          bool // every violation model is replayable (string-domain models are concrete)
 		}{
 			{".VerifUpdateStep", "internal/witness", "TestReplayCovers$", true, false},
-			{".VerifBastion", "omniwitness", "TestReplayBastion$", false, false},
+			{".VerifBastion", "omniwitness", "TestReplayBastion$", true, false},
 			{".VerifParseBodyRoundTrip", "internal/feeder/bastion", "TestReplayParseBody$", true, true},
 			{".VerifParseBodyHashLengths", "internal/feeder/bastion", "TestReplayParseBody$", true, true},
 		}
